@@ -32,6 +32,13 @@ Proof.
 Qed.
 Print Assumptions emacs_balanced.
 
+(* read as a tree, the output is one list of transactions
+   (file line (hi lo 0) code-or-nil payee-or-nil (line account amount state [cost] [note]) ...) *)
+Theorem emacs_readable_faithful : forall path xs,
+  lisp_read (emacs_out path xs) = Some (emacs_sexp path xs).
+Proof. exact emacs_read_lemma. Qed.
+Print Assumptions emacs_readable_faithful.
+
 (* ---- xml ---- *)
 Theorem xml_roundtrip : forall s, xml_decode (xml_encode s) = Some s.
 Proof. exact xml_roundtrip_lemma. Qed.
